@@ -62,6 +62,9 @@ func (r *BatchedPrivateTokenRequest) Marshal() []byte {
 }
 
 func (r *BatchedPrivateTokenRequest) Unmarshal(data []byte) bool {
+	// Drop the cached encoding: it describes the previous value of r.
+	r.raw = nil
+
 	s := cryptobyte.String(data)
 
 	var tokenType uint16
